@@ -97,6 +97,9 @@ BODIES = [
 ]
 
 CLOSURE_BODIES = [
+    # recurse / call_next reached through a closure variable that sorts BETWEEN other free variables of the method
+    ("closure_symbol_between_free_vars", "def make(prefix, sym):\n    alpha, zeta = 'A', 'Z'\n    def m(x: int):\n        return ['m', alpha, sym(t(1, alpha + prefix + str(x) + zeta)), zeta]\n    return m", (3,), None),
+    ("closure_symbol_first_of_free_vars", "def make(prefix, aaa_sym):\n    zeta = 'Z'\n    def m(x: int):\n        return ['m', aaa_sym(t(1, prefix + str(x) + zeta)), zeta]\n    return m", (3,), None),
     ("closure_var", "def make(prefix):\n    def m(x: int):\n        return ['m', prefix, R(t(1, prefix + str(x)))]\n    return m", (3,), None),
     ("closure_two_vars", "def make(prefix, suffix='!'):\n    def m(x: int):\n        return ['m', R(t(1, prefix + str(x) + suffix)), suffix]\n    return m", (3,), None),
 ]
@@ -118,7 +121,11 @@ def build(name, src, which, closure=False):
     ov = Ovld(name="ov")
     glb = dict(t=t, TRACE=TRACE, boom=boom, recurse=recurse, call_next=call_next)
     define(src2, fname, glb)
-    m = glb["make"]("P") if closure else glb["m"]
+    def _made(g_, symval):
+        mk = g_["make"]
+        return mk("P", symval) if any(n_.endswith("sym") for n_ in inspect.signature(mk).parameters) else mk("P")
+
+    m = _made(glb, glb[sym]) if closure else glb["m"]
 
     # companions: with a keyword-only parameter for bodies that pass one, with an optional second positional otherwise
     # (one signature having both would run into the known finding F-kwdrop on the reference side)
@@ -180,7 +187,7 @@ def build(name, src, which, closure=False):
 
     glb2 = dict(t=t, TRACE=TRACE, boom=boom, recurse=ref_recurse, call_next=ref_call_next)
     define(src2, fname + "ref", glb2)
-    ref_m = glb2["make"]("P") if closure else glb2["m"]
+    ref_m = _made(glb2, glb2[sym]) if closure else glb2["m"]
     return ov, ref_m, m, src2
 
 
